@@ -12,6 +12,7 @@ import (
 	"encoding/hex"
 	"fmt"
 	"math/rand/v2"
+	"strings"
 
 	"github.com/WuKongIM/WuKongIM/internal/verifh/vh"
 	"github.com/WuKongIM/WuKongIM/internal/verifh/wkp"
@@ -38,6 +39,9 @@ func gen(r *rand.Rand, tier string, i int) input {
 	}
 	o := wkp.GenOpts{Big: r.IntN(5) == 0, Wild: r.IntN(5) == 0}
 	in := input{V: v, F: wkp.GenFrame(r, t, v, o)}
+	if r.IntN(25) == 0 {
+		wkp.Boundary(r, &in.F)
+	}
 	switch r.IntN(4) {
 	case 0:
 	case 1:
@@ -147,25 +151,33 @@ func run(in input) vh.Result {
 	after, _ := wkp.FromFrame(f)
 	unchanged := after.Coq() == in.F.Coq()
 
-	vb := "v0-1"
-	switch {
-	case in.V >= 2 && in.V <= 4:
-		vb = "v2-4"
-	case in.V == 5:
-		vb = "v5"
-	case in.V == 6:
-		vb = "v6"
-	case in.V > 6:
-		vb = "v7+"
+	// histogram class: TYPE/outcome[/big]; outcome = exact (decoded == input), norm (decoded differs:
+	// fields the version does not carry, or values outside the limits), need, err, panic
+	outcome := class
+	if class == "dec-ok" {
+		outcome = "norm"
+		if strings.Contains(decTerm, in.F.Coq()) {
+			outcome = "exact"
+		}
+	}
+	cls := fmt.Sprintf("%s/%s", typeName[in.F.T], outcome)
+	for _, h := range in.F.S {
+		if len(h) > 2*1000 {
+			cls += "/big"
+			break
+		}
 	}
 	return vh.Result{
 		Coq: vh.App("C22Case", vh.N(uint64(in.V)), in.F.Coq(), vh.Hex(tail), vh.N(uint64(size)), encTerm, decTerm, vh.B(unchanged)),
 		Obs: map[string]any{"size": size, "enc": hex.EncodeToString(enc.bytes), "enc_err": fmt.Sprint(enc.err),
 			"enc_panic": enc.panicked, "dec": decTerm},
-		Class:   fmt.Sprintf("t=%d,%s,%s", in.F.T, vb, class),
+		Class:   cls,
 		Trivial: false,
 	}
 }
+
+var typeName = map[uint8]string{1: "CONNECT", 2: "CONNACK", 3: "SEND", 4: "SENDACK", 5: "RECV", 6: "RECVACK",
+	7: "PING", 8: "PONG", 9: "DISCONNECT", 10: "SUB", 11: "SUBACK", 12: "EVENT"}
 
 func main() {
 	vh.Main(vh.Harness[input]{EmitConsts: wkp.EmitConsts, Gen: gen, Run: run})
